@@ -35,6 +35,26 @@ def run_shard(args):
     return json.loads(line[-1])
 
 
+def minimise_hit(src, h):
+    """ask the harness (fresh process, forked children per candidate) for the smallest failing history + title"""
+    obj = {"lang": h["lang"], "dns": h["dns"], "title": h["title"], "expect": h.get("expect"), "history": h["history"], "inst": h["inst"]}
+    out = dict(obj, kind=h["kind"], detail=h["detail"])
+    try:
+        rc, txt = core.run_impl("vt.harness.c12_impl", ["minimise"], src=src, input=json.dumps(obj), timeout=300)
+        m = json.loads([ln for ln in txt.splitlines() if ln.startswith("{")][-1])
+        if m.get("reproduced") and m.get("problems"):
+            out.update(lang=m["lang"], dns=m["dns"], title=m["title"], expect=m.get("expect"), history=m["history"], inst=m["inst"],
+                       kind=m["problems"][0][0], detail=m["problems"][0][1])
+    except Exception:  # noqa: BLE001   (the unminimised hit is still a hit)
+        pass
+    hist = out["history"]
+    out["history_note"] = ""
+    if len(hist) > 1:
+        out["history_note"] = ("   [handlers created in this process, in order: %s; the failing call is on handler #%d]"
+                               % (", ".join("%s(%s)" % (e[0], e[1]) for e in hist), out["inst"]))
+    return out
+
+
 def corpus_file():
     d = os.path.join(core.VERIF, "corpus", "C12")
     items = []
@@ -80,8 +100,8 @@ def check(run):
     ok = run.check_proofs("C12", gen=gen)
     exe = build()
     quick = run.tier == "quick"
-    nshards = 4 if quick else 16
-    ngroups = 270 if quick else 12000
+    nshards = 8 if quick else 16
+    ngroups = 300 if quick else 12000
     corpus = corpus_file()
     jobs = [(src, run.seed, i, ngroups, exe, corpus) for i in range(nshards)]
     with concurrent.futures.ThreadPoolExecutor(max_workers=nshards) as ex:
@@ -89,6 +109,8 @@ def check(run):
     dis = []
     tie_cases = 0
     dist = {}
+    raw_hits = []
+    orders = []
     for r in results:
         tie_cases += r["tie_cases"]
         dis.extend(r["disagreements"])
@@ -99,11 +121,30 @@ def check(run):
             dist[k] = dist.get(k, 0) + v
         for s in r["samples"]:
             run.sample(s)
-        for h in r["hits"]:
-            run.hit(fingerprint="%s:%s:%d:%s" % (h["kind"], h["lang"], h["dns"], h["title"]),
-                    what="%s: site %s: %s" % (h["kind"], h["lang"], h["detail"]),
-                    replay={"lang": h["lang"], "dns": h["dns"], "title": h["title"], "expect": h.get("expect"),
-                            "title_codepoints": [ord(c) for c in h["title"]]})
+        raw_hits.extend(r["hits"])
+        orders.append(" ".join(r["site_order"]))
+    # ---- minimise: smallest history of handler objects, then smallest title, that still makes the oracle fire (each
+    # candidate is judged in a fresh process image); one report per (kind, site, minimised title)
+    seen_fp = set()
+    classes = {}
+    for h in raw_hits:
+        if classes.get((h["kind"], h["lang"]), 0) >= 2 or len(seen_fp) >= 8:
+            continue
+        classes[(h["kind"], h["lang"])] = classes.get((h["kind"], h["lang"]), 0) + 1
+        m = minimise_hit(src, h)
+        fp = "%s:%s:%d:%s" % (m["kind"], m["lang"], m["dns"], m["title"])
+        if len(m["history"]) > 1:
+            fp += ":after:" + ",".join(e[0] for e in m["history"])
+        if fp in seen_fp:
+            continue
+        seen_fp.add(fp)
+        run.hit(fingerprint=fp, what="%s: site %s: %s%s" % (m["kind"], m["lang"], m["detail"], m["history_note"]),
+                replay={"lang": m["lang"], "dns": m["dns"], "title": m["title"], "expect": m.get("expect"),
+                        "history": m["history"], "inst": m["inst"], "title_codepoints": [ord(c) for c in m["title"]],
+                        "found_as": {"title": h["title"], "dns": h["dns"], "handlers_in_process": len(h["history"]),
+                                     "group": h["group"]}})
+    dist["raw_monitor_hits"] = len(raw_hits)
+    run.coverage["handler_creation_orders"] = orders
     run.tie("splitname: extracted model vs NsHandler.splitname (ns, remainder, full name / KeyError)", tie_cases, dis)
     if "gen" in info:
         g, langs = info["gen"]
